@@ -129,17 +129,18 @@ Assign(ver, kind, cur, nm, comps, hasce) ==
 RECURSIVE SumLens(_, _)
 SumLens(es, k) == IF k = 0 THEN 0 ELSE es[k][2] + SumLens(es, k - 1)
 
+\* (operator arguments are evaluated once, LET definitions on every use: hence the helpers)
+Packed(p, needce) ==
+  [ok |-> p.ok /\ p.cur <= Allowed, needce |-> needce, reclen |-> p.cur + (p.cur % 2),
+   dr |-> IF needce THEN Append(p.dr, <<"CE", CELen>>) ELSE p.dr,
+   ce |-> p.ce, celen |-> SumLens(p.ce, Len(p.ce)), heads |-> p.heads]
+
+Retry(p1, ver, kind, cur, nm, comps) ==
+  IF p1.ok THEN Packed(p1, FALSE) ELSE Packed(Assign(ver, kind, cur + CELen, nm, comps, TRUE), TRUE)
+
 \* first without a CE entry; if something does not fit, again with one
 Place(ver, xa, kind, lenfi, nm, comps) ==
-  LET cur == Start(lenfi, xa)
-      p1 == Assign(ver, kind, cur, nm, comps, FALSE)
-      p2 == Assign(ver, kind, cur + CELen, nm, comps, TRUE)
-      p  == IF p1.ok THEN p1 ELSE p2
-      needce == ~p1.ok
-      drlen == p.cur + (p.cur % 2)
-  IN [ok |-> p.ok /\ p.cur <= Allowed, needce |-> needce, reclen |-> drlen,
-      dr |-> IF needce THEN Append(p.dr, <<"CE", CELen>>) ELSE p.dr,
-      ce |-> p.ce, celen |-> SumLens(p.ce, Len(p.ce)), heads |-> p.heads]
+  Retry(Assign(ver, kind, Start(lenfi, xa), nm, comps, FALSE), ver, kind, Start(lenfi, xa), nm, comps)
 
 Sigs(es) == [j \in 1 .. Len(es) |-> es[j][1]]
 
